@@ -97,7 +97,15 @@ func mutate(rng *mrand.Rand, b []byte) []byte {
 func structural(rng *mrand.Rand, h *tlswire.ClientHello) *tlswire.ClientHello {
 	h = h.Clone()
 	for k := 1 + rng.IntN(3); k > 0; k-- {
-		switch rng.IntN(9) {
+		switch rng.IntN(10) {
+		case 9: // keep config id and suite of the ECH offer (they match the held key) but make enc / payload degenerate
+			if i := h.Find(tlswire.ExtECH); i >= 0 {
+				if f, ok := tlswire.ParseECHOuter(h.Exts[i].Data); ok {
+					enc := [][]byte{nil, {7}, hellogen.Bytes(rng, 31), hellogen.Bytes(rng, 33), hellogen.Bytes(rng, 65), make([]byte, 32), f.Enc}[rng.IntN(7)]
+					payload := [][]byte{f.Payload, nil, {1}, hellogen.Bytes(rng, 15), hellogen.Bytes(rng, 16), hellogen.Bytes(rng, 17)}[rng.IntN(6)]
+					h.Exts[i] = tlswire.ECHOuter(f.KDF, f.AEAD, f.ConfigID, enc, payload)
+				}
+			}
 		case 0: // duplicate an existing extension (incl. ECH)
 			if len(h.Exts) > 0 {
 				e := h.Exts[rng.IntN(len(h.Exts))]
